@@ -207,7 +207,7 @@ def discharge(site):
                     return 'range bound %d <= len(%s) by a dominating length guard' % (c, recv)
                 return None
             nt = re.escape(show(need))
-            if _guarded(v, bb, [r'^\(' + nt + r' <= ' + LEN + r'\(' + re.escape(recv) + r'\)\)$'], recv):
+            if _guarded(v, bb, [r'^\(' + nt + r' <= ' + LEN + r'\(' + re.escape(recv) + r'\)\)$', r'^\(' + nt + r' < ' + LEN + r'\(' + re.escape(recv) + r'\)\)$'], recv):
                 return 'range bound <= len by a dominating guard'
             m = re.match(r'^\(\((.+) AddWithOverflow 1\)\)\.0$', show(need))
             if m and _guarded(v, bb, [r'^\(' + re.escape(m.group(1)) + r' < ' + LEN + r'\(' + re.escape(recv) + r'\)\)$'], recv):
@@ -228,6 +228,11 @@ def discharge(site):
         if _guarded(v, bb, [r'^Option::is_some\(' + ea + r'\)$', r'^!Option::is_none\(' + ea + r'\)$', '^' + ea + r' is Some$',
                             r'^Result::is_ok\(' + ea + r'\)$', r'^!Result::is_err\(' + ea + r'\)$'], at):
             return 'dominated by is_some/!is_none test of the same value'
+        m = re.match(r'^Option::take\((.*)\)$', at)
+        if m:
+            ex = re.escape(m.group(1))
+            if _guarded(v, bb, [r'^Option::is_some\(' + ex + r'\)$', r'^!Option::is_none\(' + ex + r'\)$', '^' + ex + r' is Some$'], m.group(1)):
+                return 'take().unwrap() dominated by is_some of the same place'
         # container idioms
         m = re.match(r'^(?:VecDeque|Vec)::(?:pop_front|pop_back|pop|front|back|first|last)\((.*)\)$', at) or \
             re.match(r'^(?:VecDeque|Vec|slice)::(?:front|back|first|last)\((.*)\)$', at)
@@ -275,6 +280,19 @@ def discharge(site):
             if why and (not site.what.startswith('Duration') or fold(cs.arg(1)) is not None):
                 return 'duration operand is bounded: ' + why
         return None
+    if k == 'rng':
+        cs = site.cs
+        rng = show(cs.arg(1)) if len(cs.args) > 1 else ''
+        if rng.startswith('RangeInclusive'):
+            m = re.match(r'^RangeInclusive::new\((.*), (.*)\)$', rng)
+            if m and m.group(1) == '0':
+                return 'inclusive range 0..=x is never empty for an unsigned bound'
+        m = re.match(r'^Range\{start: 0, end: (.*)\}$', rng)
+        if m and _guarded(v, bb, [r'^!\(' + re.escape(m.group(1)) + r' == 0\)$', r'^\(0 < ' + re.escape(m.group(1)) + r'\)$'], m.group(1)):
+            return 'range is non-empty by a dominating guard'
+        return None
+    if k == 'panic' and ('select!' in site.mac or 'tokio::select' in site.mac or '$crate::select' in site.mac):
+        return 'inside the expansion of tokio::select! (trusted library macro: unreachable unless every branch is disabled)'
     if k == 'panic':
         # variant mismatch after building the very variant locally
         for g in prims.guard_strs(v, bb):
@@ -306,6 +324,11 @@ def bounded_duration(view, e, depth=0):
             ty = _expr_int_width(view, a)
             if ty is not None and ty <= 32:
                 return 'from_secs/millis of a %d-bit integer' % ty
+            return None
+        if short(fn) in ('Div::div',) or fn.endswith('Duration::div_f64') or fn.endswith('Duration::div_f32'):
+            w = bounded_duration(view, e[2][0], depth + 1)
+            if w and fold(e[2][1]) not in (None, 0):
+                return '(%s) / %s' % (w, fold(e[2][1]))
             return None
         if fn.endswith('Ord::min') or fn.endswith('::min'):
             for a in e[2]:
